@@ -618,6 +618,20 @@ def generate_tables(sites) -> bool:
             keys = ", ".join(f"({lean_str(k)}, {int(r)})" for k, r in ctx.sortkey)
             et = "none" if ctx.event_types is None else "some [" + ", ".join(lean_str(t) for t in ctx.event_types) + "]"
             sort_ctxs.append(f"  ⟨{idx}, [{keys}], {'true' if ctx.global_sort else 'false'}, {et}⟩")
+    # the TID mapping context as registered (table of pre-computed slots and the step that continues it)
+    tid_ctx = [ctx for name, _l, ctx, _kw in rec if name == "map_tid_to_range"]
+    if len(tid_ctx) != 1 or not all(isinstance(v, int) for v in tid_ctx[0].tid_remap) \
+            or not isinstance(tid_ctx[0].remap_step, int) or tid_ctx[0].tid_original != []:
+        raise ShapeNotRecognised("map_tid_to_range is not registered exactly once with an integer TIDMappingContext")
+    # the name parts of drop_global_events (a list literal assigned to `glb_names` in the callback)
+    import ast as _ast
+    gsrc = (repo_src() / "pipeline" / "drop_global_event.py").read_text()
+    glb = [n.value for n in _ast.walk(_ast.parse(gsrc)) if isinstance(n, _ast.Assign)
+           and any(isinstance(t, _ast.Name) and t.id == "glb_names" for t in n.targets)]
+    if len(glb) != 1 or not isinstance(glb[0], _ast.List) or \
+            not all(isinstance(e, _ast.Constant) and isinstance(e.value, str) for e in glb[0].elts):
+        raise ShapeNotRecognised("drop_global_events: glb_names is not one list literal of strings")
+    glb = [e.value for e in glb[0].elts]
     tl = ["/- GENERATED by harness/translate.py from the live context objects of the real registration",
           "   (default switches) of the current /repo tree. Do not edit. -/",
           "namespace AiuVerif.Gen", "",
@@ -629,6 +643,11 @@ def generate_tables(sites) -> bool:
           "  eventTypes : Option (List String)",
           "deriving Repr, DecidableEq", "",
           "def sortCtxs : List SortCtx := [", ",\n".join(sort_ctxs), "]", "",
+          "/-- `tid_remap` and `remap_step` of the TIDMappingContext the CLI registers -/",
+          "def tidRemap : List Int := [" + ", ".join(str(v) for v in tid_ctx[0].tid_remap) + "]",
+          f"def tidStep : Int := {tid_ctx[0].remap_step}", "",
+          "/-- `glb_names` of drop_global_events (list literal in the source) -/",
+          "def glbNames : List String := [" + ", ".join(lean_str(g) for g in glb) + "]", "",
           "end AiuVerif.Gen", ""]
     return write_if_changed(GEN / "Tables.lean", "\n".join(tl))
 
